@@ -2,6 +2,7 @@ package main
 
 import (
 	"fmt"
+	"go/constant"
 	"go/token"
 	"strings"
 
@@ -121,6 +122,97 @@ func runC05(c *Check) {
 	c.edgeSymmetry()
 	c.keptSetUse()
 	c.residualFlag()
+	c.stickyEdgeFlags()
+}
+
+// stickyEdgeFlags (R7): the marks of an edge that already exists only move one way when
+// another sample or a trimming step contributes to it: Residual is only ever set (an edge
+// that bypasses removed entries in any contributing sample stays residual) and Inline is
+// only ever cleared.  A store of an arbitrary value would let the last contribution decide.
+func (c *Check) stickyEdgeFlags() {
+	p := c.P
+	sticky := map[string]bool{"Residual": true, "Inline": false}
+	n := 0
+	forAllPkgFuncs(p, "internal/graph", func(f *ssa.Function) {
+		for _, b := range f.Blocks {
+			for _, ins := range b.Instrs {
+				st, ok := ins.(*ssa.Store)
+				if !ok {
+					continue
+				}
+				fa, ok := st.Addr.(*ssa.FieldAddr)
+				if !ok {
+					continue
+				}
+				T, F := fieldOf(fa.X.Type(), fa.Field)
+				want, tracked := sticky[F]
+				if T != "graph.Edge" || !tracked {
+					continue
+				}
+				if _, fresh := fa.X.(*ssa.Alloc); fresh {
+					continue // a new edge is initialised with the first contribution's marks
+				}
+				n++
+				key := "sticky:" + fnName(f) + ":" + F
+				isWant := func(v ssa.Value) bool {
+					k, ok := v.(*ssa.Const)
+					return ok && k.Value != nil && constant.BoolVal(k.Value) == want
+				}
+				ok2 := isWant(st.Val)
+				how := fmt.Sprintf("constant %v", want)
+				if ph, isPhi := st.Val.(*ssa.Phi); isPhi && !ok2 {
+					// old || x  /  old && x : one edge is the sticky constant, selected by the old value
+					hasConst, byOld := false, false
+					onlyOld := true
+					for _, e := range ph.Edges {
+						if isWant(e) {
+							hasConst = true
+							continue
+						}
+						isOld := false
+						if ld, ok := e.(*ssa.UnOp); ok && ld.Op == token.MUL {
+							if fa2, ok := ld.X.(*ssa.FieldAddr); ok && fa2.Field == fa.Field && sameNode(fa2.X, fa.X) {
+								isOld = true
+							}
+						}
+						if !isOld {
+							onlyOld = false
+						}
+					}
+					if hasConst && onlyOld {
+						ok2 = true
+						how = "either the sticky constant or the edge's own previous value"
+					}
+					for _, pred := range ph.Block().Preds {
+						for d := pred; d != nil; d = d.Idom() {
+							if iff, ok := d.Instrs[len(d.Instrs)-1].(*ssa.If); ok {
+								if ld, ok := iff.Cond.(*ssa.UnOp); ok && ld.Op == token.MUL {
+									if fa2, ok := ld.X.(*ssa.FieldAddr); ok && fa2.Field == fa.Field && sameNode(fa2.X, fa.X) {
+										byOld = true
+									}
+								}
+							}
+							if d == ph.Block().Idom() {
+								break
+							}
+						}
+					}
+					if hasConst && byOld {
+						ok2 = true
+						how = "old value combined with the new contribution (short-circuit form keeps the sticky value)"
+					}
+				}
+				if ok2 {
+					c.ok("C05-R7", key, p.relFile(st.Pos()), fmt.Sprintf("Edge.%s of an existing edge only moves to %v in %s", F, want, fnName(f)), how)
+				} else {
+					c.bad("C05-R7", key, p.relFile(st.Pos()), fmt.Sprintf("%s overwrites Edge.%s of an existing edge with %s: the mark then depends on which sample contributes last (an edge that bypasses removed entries in one sample loses its residual mark when a direct sample follows)", fnName(f), F, describeValue(st.Val)))
+				}
+			}
+		}
+	})
+	if n < 2 {
+		c.undecided("C05-R7", "sticky", "", fmt.Sprintf("expected stores to Edge.Residual / Edge.Inline of existing edges, found %d", n))
+	}
 }
 
 // residualFlag (R6): in newGraph the residual flag is a function of the frames dropped
